@@ -6,6 +6,7 @@ CONSTANTS
   Sizes = {4}
   KvPool <- KvPool4
   TokPool <- TokPool4
+  MixPool <- MixPool4
   Extra <- NoExtra
   GFirst = TRUE
   SelDet = FALSE
